@@ -410,8 +410,12 @@ def run_shards(exe, mode, seed, ncases, runspec, agg, nshards=None, timeout=900,
         cmd = [exe, mode, str(seed), str(s), str(nshards), str(ncases)] + list(extra_args)
         p = subprocess.Popen(cmd, stdout=so, stderr=se, env=e, cwd=rundir, start_new_session=True)
         procs.append((p, s, prog, so, se, cmd))
+    env = env
     deadline = time.time() + timeout
-    for p, s, prog, so, se, cmd in procs:
+    restarts = 0
+    queue = list(procs)
+    while queue:
+        p, s, prog, so, se, cmd = queue.pop(0)
         hung = False
         try:
             p.wait(max(1, deadline - time.time()))
@@ -424,7 +428,7 @@ def run_shards(exe, mode, seed, ncases, runspec, agg, nshards=None, timeout=900,
             p.wait()
         so.close()
         se.close()
-        for line in open(os.path.join(rundir, 'out.%d' % s), errors='replace'):
+        for line in open(so.name, errors='replace'):
             agg.feed(line.rstrip('\n'), runspec)
         rc = p.returncode
         if hung or rc not in (0,):
@@ -433,7 +437,7 @@ def run_shards(exe, mode, seed, ncases, runspec, agg, nshards=None, timeout=900,
                 case = open(prog).read().strip() or '?'
             except OSError:
                 pass
-            err = open(os.path.join(rundir, 'err.%d' % s), errors='replace').read()
+            err = open(se.name, errors='replace').read()
             if hung:
                 agg.viol.append(('hang', case, 'watchdog %ds expired' % timeout, runspec))
             elif rc == 3:
@@ -441,24 +445,52 @@ def run_shards(exe, mode, seed, ncases, runspec, agg, nshards=None, timeout=900,
             else:
                 kind = classify_crash(rc, err)
                 agg.viol.append(('crash:' + kind, case, err[-6000:], runspec))
+                # the crashed case killed its shard: resume the shard after that case so one (possibly
+                # known) crash does not mask the remaining cases
+                m = re.match(r'.*:(\d+)$', case)
+                if m and restarts < 40 * nshards and time.time() < deadline:
+                    restarts += 1
+                    nxt = int(m.group(1)) + int(cmd[4])
+                    agg.evals += max(0, (nxt - int(cmd[3])) // int(cmd[4]))
+                    if nxt < int(cmd[5]):
+                        cmd2 = list(cmd)
+                        cmd2[3] = str(nxt)
+                        e = dict(env)
+                        e['VERIF_PROGRESS'] = prog
+                        tag = '%d.r%d' % (s, restarts)
+                        so2 = open(os.path.join(rundir, 'out.' + tag), 'wb')
+                        se2 = open(os.path.join(rundir, 'err.' + tag), 'wb')
+                        p2 = subprocess.Popen(cmd2, stdout=so2, stderr=se2, env=e, cwd=rundir, start_new_session=True)
+                        queue.append((p2, s, prog, so2, se2, cmd2))
     shutil.rmtree(rundir, ignore_errors=True)
+
+
+def crash_site(err):
+    """First stack frame that lies in the code under test (/repo), as 'function'."""
+    for m in re.finditer(r'#\d+ 0x[0-9a-f]+ in (\S+) (/\S+?):(\d+)', err):
+        if m.group(2).startswith(REPO + '/') or '/ref/' in m.group(2):
+            return m.group(1)
+    m = re.search(r'^(/\S+?):(\d+):\d+: runtime error', err, re.M)
+    if m:
+        return os.path.basename(m.group(1))
+    return 'unknown'
 
 
 def classify_crash(rc, err):
     m = re.search(r'ERROR: AddressSanitizer: ([a-zA-Z0-9_-]+)', err)
     if m:
-        return 'asan:' + m.group(1)
+        return 'asan:' + m.group(1) + '@' + crash_site(err)
     if 'ThreadSanitizer' in err:
         m = re.search(r'WARNING: ThreadSanitizer: ([a-zA-Z ]+?) \(', err)
-        return 'tsan:' + (m.group(1).replace(' ', '-') if m else 'report')
+        return 'tsan:' + (m.group(1).replace(' ', '-') if m else 'report') + '@' + crash_site(err)
     if 'MemorySanitizer' in err:
-        return 'msan'
+        return 'msan@' + crash_site(err)
     m = re.search(r'runtime error: ([a-z -]+)', err)
     if m:
-        return 'ubsan:' + m.group(1).strip().replace(' ', '-')[:40]
+        return 'ubsan:' + m.group(1).strip().replace(' ', '-')[:40] + '@' + crash_site(err)
     m = re.search(r'Fatal \(internal\) error in ([^ ]+) line (\d+): (.*)', err)
     if m:
-        return 'celt_fatal:' + os.path.basename(m.group(1))
+        return 'celt_fatal:' + os.path.basename(m.group(1)) + ':' + m.group(2)
     if '*** stack smashing' in err or 'buffer overflow detected' in err:
         return 'fortify'
     if rc < 0:
